@@ -203,6 +203,8 @@ type c20Line struct {
 type c20File struct {
 	role    string // "rotated" | "current"
 	profile string
+	tsdist  string // distribution of the timestamps
+	idle    []int  // indices of lines that follow an idle period
 	zone    string
 	geom    map[string]any
 	path    string
@@ -214,11 +216,14 @@ type c20File struct {
 // c20Case is a generated file set, oldest file first, as the product orders
 // them (rotated, current).
 type c20Case struct {
-	id    int
-	kind  string
-	files []*c20File
-	all   []c20Line // every line, oldest first
-	first []int     // index in all of the first line of each file
+	id   int
+	kind string
+	// curPath is the path of the current log file; the rotated one is
+	// curPath+".1".
+	curPath string
+	files   []*c20File
+	all     []c20Line // every line, oldest first
+	first   []int     // index in all of the first line of each file
 }
 
 var c20Zones = []struct {
@@ -242,6 +247,22 @@ func c20Lens(rng *rand.Rand, profile string, maxBytes int) (lens []int, geom map
 		}
 		for i := 0; i < n; i++ {
 			lens = append(lens, c20RandLen(rng, c20Weighted(rng, c20WSmall)))
+		}
+	case "timeline":
+		// Many short lines: the point of these files is the distribution of
+		// the timestamps (see c20Gaps), in files well above the 32 KiB of a
+		// probe read.
+		n := 800 + rng.Intn(2201)
+		if maxBytes > 6<<20 && rng.Intn(2) == 0 {
+			n = 3000 + rng.Intn(3001)
+		}
+		hi := 100 + rng.Intn(400)
+		for i := 0; i < n; i++ {
+			if rng.Intn(60) == 0 {
+				lens = append(lens, c20RandLen(rng, c20Weighted(rng, c20WMixed)))
+				continue
+			}
+			lens = append(lens, c20MinLen+rng.Intn(hi))
 		}
 	case "typical":
 		n := 5 + rng.Intn(296)
@@ -408,6 +429,81 @@ func c20Gap(rng *rand.Rand, regime int) int64 {
 	}
 }
 
+// Timestamp distributions of a file.
+var c20Dists = []string{"bursts", "bursts", "bursts", "bursts+outliers", "uniform", "exponential", "outlier-first", "outlier-last"}
+
+const c20Year = int64(365 * 24 * time.Hour)
+
+// c20Gaps returns the gaps between consecutive timestamps of a file of n
+// lines (gaps[i] = ts[i]-ts[i-1], gaps[0] unused) for a distribution, and the
+// indices i whose gap is an idle period.
+func c20Gaps(rng *rand.Rand, dist string, n int) (gaps []int64, idle []int) {
+	gaps = make([]int64, n)
+	units := []int64{1, 1000, int64(time.Millisecond), int64(time.Millisecond), int64(time.Millisecond), int64(time.Second)}
+	unit := units[rng.Intn(len(units))]
+	jitter := rng.Intn(2) == 0
+	dense := func() int64 {
+		if jitter && unit > 1 {
+			return 1 + rng.Int63n(2*unit)
+		}
+		return unit
+	}
+	long := func() int64 {
+		switch rng.Intn(5) {
+		case 0:
+			return int64(time.Hour) + rng.Int63n(int64(12*time.Hour))
+		case 1:
+			return int64(24*time.Hour) + rng.Int63n(int64(30*24*time.Hour))
+		case 2:
+			return c20Year/2 + rng.Int63n(4*c20Year)
+		case 3:
+			return 8 * int64(time.Hour)
+		default:
+			return int64(10*time.Minute) + rng.Int63n(int64(time.Hour))
+		}
+	}
+	switch dist {
+	case "uniform":
+		for i := range gaps {
+			gaps[i] = unit
+		}
+	case "exponential":
+		mean := float64(unit) * float64(1+rng.Intn(1000))
+		for i := range gaps {
+			gaps[i] = 1 + int64(rng.ExpFloat64()*mean)
+		}
+	case "bursts", "bursts+outliers":
+		for i := range gaps {
+			gaps[i] = dense()
+		}
+		nb := 1 + rng.Intn(5) // idle periods
+		for k := 0; k < nb && n > 2; k++ {
+			i := 1 + rng.Intn(n-1)
+			if k == 0 && rng.Intn(2) == 0 {
+				i = n/4 + rng.Intn(n/2+1) // one idle period in the middle half
+			}
+			if i >= n {
+				i = n - 1
+			}
+			gaps[i] = long()
+			idle = append(idle, i)
+		}
+	case "outlier-first", "outlier-last":
+		for i := range gaps {
+			gaps[i] = dense()
+		}
+	}
+	if n > 2 && (dist == "outlier-first" || (dist == "bursts+outliers" && rng.Intn(2) == 0)) {
+		gaps[1] = 2*c20Year + rng.Int63n(12*c20Year)
+		idle = append(idle, 1)
+	}
+	if n > 2 && (dist == "outlier-last" || (dist == "bursts+outliers" && rng.Intn(2) == 0)) {
+		gaps[n-1] = 2*c20Year + rng.Int63n(12*c20Year)
+		idle = append(idle, n-1)
+	}
+	return gaps, idle
+}
+
 // c20Build generates a case and writes its files into dir.
 func c20Build(rng *rand.Rand, id int, kind string, dir string, maxBytes int) (*c20Case, error) {
 	c := &c20Case{id: id, kind: kind}
@@ -420,7 +516,8 @@ func c20Build(rng *rand.Rand, id int, kind string, dir string, maxBytes int) (*c
 		profiles = []string{"few"}
 	} else {
 		profiles = []string{"typical", "typical", "mixed", "mixed", "mixed", "mixed", "heavy", "heavy", "heavy",
-			"window-edge", "window-edge", "window-edge", "probe-edge", "probe-edge", "probe-edge", "one-window", "few"}
+			"window-edge", "window-edge", "window-edge", "probe-edge", "probe-edge", "probe-edge", "one-window", "few",
+			"timeline", "timeline", "timeline"}
 	}
 	ts := time.Date(2018, 1, 1, 0, 0, 0, 0, time.UTC).UnixNano() + rng.Int63n(int64(12*365*24*time.Hour))
 	if rng.Intn(3) == 0 {
@@ -449,7 +546,25 @@ func c20Build(rng *rand.Rand, id int, kind string, dir string, maxBytes int) (*c
 		}
 		f.zone = z.name
 		regime := rng.Intn(6)
-		f.path = filepath.Join(dir, fmt.Sprintf("c20_%d_%d.json", id, fi))
+		// Names as the product uses them: <log> and <log>.1.
+		c.curPath = filepath.Join(dir, fmt.Sprintf("c20_%s_%d.json", kind, id))
+		f.path = c.curPath
+		if f.role == "rotated" {
+			f.path = c.curPath + ".1"
+		}
+		f.tsdist = []string{"all gaps 1 ns", "gaps below 1 us", "independent gaps 1 ns .. 3 days"}[min(regime, 2)]
+		var gaps []int64
+		if n := len(f.lens); f.profile == "timeline" || (n >= 100 && rng.Intn(4) == 0) {
+			f.tsdist = c20Dists[rng.Intn(len(c20Dists))]
+			gaps, f.idle = c20Gaps(rng, f.tsdist, n)
+			if fi == 0 && n > 2 && gaps[1] >= c20Year && rng.Intn(2) == 0 {
+				// The clock was not set when the first record was written.
+				first := int64(time.Second) + rng.Int63n(int64(24*time.Hour))
+				gaps[1] = ts - first
+				ts = first
+				f.tsdist += " (first record on 1970-01-01)"
+			}
+		}
 		var sb strings.Builder
 		tot := 0
 		for _, l := range f.lens {
@@ -458,7 +573,9 @@ func c20Build(rng *rand.Rand, id int, kind string, dir string, maxBytes int) (*c
 		sb.Grow(tot)
 		c.first = append(c.first, len(c.all))
 		for i, l := range f.lens {
-			if i > 0 || fi > 0 {
+			if i > 0 && gaps != nil {
+				ts += gaps[i]
+			} else if i > 0 || fi > 0 {
 				ts += c20Gap(rng, regime)
 				if i == 0 && rng.Intn(3) != 0 {
 					ts += 2 + rng.Int63n(int64(time.Hour)) // room for an absent stamp between the files
@@ -487,6 +604,27 @@ func (c *c20Case) remove() {
 	for _, f := range c.files {
 		_ = os.Remove(f.path)
 	}
+	_ = os.Remove(c.curPath)
+	_ = os.Remove(c.curPath + ".1")
+}
+
+// rewrite puts the files on disk again as they were generated (a rotation
+// history renames and replaces them).
+func (c *c20Case) rewrite() error {
+	_ = os.Remove(c.curPath)
+	_ = os.Remove(c.curPath + ".1")
+	for _, f := range c.files {
+		var sb strings.Builder
+		sb.Grow(int(f.size))
+		for _, l := range f.lines {
+			sb.WriteString(l.text)
+			sb.WriteByte('\n')
+		}
+		if err := os.WriteFile(f.path, []byte(sb.String()), 0o644); err != nil {
+			return err
+		}
+	}
+	return nil
 }
 
 // describe renders the case so that it can be rebuilt without the PRNG.
@@ -497,7 +635,7 @@ func (c *c20Case) describe() map[string]any {
 		for i, l := range f.lines {
 			tss[i] = strconv.FormatInt(l.ts, 10)
 		}
-		m := map[string]any{"role": f.role, "profile": f.profile, "zone": f.zone, "size_bytes": f.size,
+		m := map[string]any{"role": f.role, "profile": f.profile, "timestamp_distribution": f.tsdist, "lines_after_an_idle_period": f.idle, "zone": f.zone, "size_bytes": f.size,
 			"lines": len(f.lines), "line_lengths": f.lens, "timestamps_unix_nano": strings.Join(tss, " ")}
 		if f.geom != nil {
 			m["geometry"] = f.geom
@@ -522,6 +660,35 @@ func (c *c20Case) digest() string {
 		sb.WriteByte(';')
 	}
 	return verifkit.Hash(sb.String())
+}
+
+// timelineTargets returns indices of lines of f that seeks must try because
+// of the distribution of the timestamps: the lines on both sides of every idle
+// period at growing distances, and every k-th line.
+func (f *c20File) timelineTargets() (out []int) {
+	n := len(f.lines)
+	if len(f.idle) == 0 && f.profile != "timeline" {
+		return nil
+	}
+	add := func(i int) {
+		if i >= 0 && i < n {
+			out = append(out, i)
+		}
+	}
+	for _, g := range f.idle {
+		for _, off := range []int{0, 1, 10, 25, 50, 75, 100, 125, 150, 200, 250, 300, 400, 500, 700, 1000, 1500, 2500} {
+			add(g - 1 - off)
+			add(g + off)
+		}
+	}
+	step := n / 60
+	if step < 1 {
+		step = 1
+	}
+	for i := 0; i < n; i += step {
+		add(i)
+	}
+	return out
 }
 
 // nontrivial implements the rule of the report: a file larger than one read
